@@ -4,6 +4,23 @@ NOTES = ("Technique: machine-checked proof in Lean 4 about a hand-written execut
          "correspondence run on every check (DESIGN.md). fix: commits in /repo are listed in known_findings.json.")
 NOT_APPLICABLE = {}
 CHECKS = {
+    "C03": {
+        "text": ("Lean theorems (unbounded): a path passing the repaired lexical test consists of plain components only, so it names a strict descendant of "
+                 "dest (accepted_path_is_plain); an admitted hard link names an earlier admitted plain file (link_source_was_sent); validator theorems of C12. "
+                 "Correspondence: hostile packet scripts (ill-formed paths, order/parent violations, children of files/symlinks, escaping hard links, symlink "
+                 "entries with xattrs pointing outside, DATA for unrequested ids, ERR) against real Receive in a chroot'ed child with sentinel trees around dest; "
+                 "the first offender predicted by the Lean admission model; oracle: nothing outside dest changed, failure, nothing at/after the offender applied."),
+        "note": ("Trusted: Lean kernel + standard axioms; the containment of DiskWriter's syscalls is decided by the sentinel snapshot on generated scripts, "
+                 "not by a theorem over a POSIX model; STAT after the end marker (process crash, outside the listed clauses) is not generated."),
+    },
+    "C07": {
+        "text": ("Lean theorems (unbounded): in every reachable state of the receiver LTS requests are needed ids, announced before requested, at most once; "
+                 "terminators only for requested ids; FIN only after the end marker and all terminators (receiver_protocol); stored bytes = concatenation of the "
+                 "payloads received, any chunking/interleaving (stored_is_concat). The LTS is the acceptor of real Receive event logs against an independent "
+                 "reference sender; needed ids come from the Lean change computation; the destination (also at the moment FIN is seen) is compared with what was sent."),
+        "note": ("Trusted: Lean kernel + standard axioms; bytes compared by content hash in the harness; schedules = those produced by seeded capacities, "
+                 "chunkings and interleavings."),
+    },
     "C06": {
         "text": ("Lean theorems (unbounded): in the abstract sender LTS (any number of workers, any queue discipline, any interleaving, any read split) the DATA "
                  "payloads per id always form a prefix of the file at that STAT index, the whole file once terminated, and only announced regular entries carry "
